@@ -395,7 +395,7 @@ Proof.
   { split.
     - split; [exact G|]. split; [cbn; rewrite EF; reflexivity|]. split.
       + destruct M as [F N]. split; [|exact N]. cbn. constructor; [|exact F].
-        split; [apply vars_match_mvars|split; [|reflexivity]]. cbn. unfold cur_ns. rewrite EF. inversion F as [|sc f0 scs fs (V & NS & BB) F' E1 E2]; subst.
+        split; [apply vars_match_mvars|split; [|split; reflexivity]]. cbn. unfold cur_ns. rewrite EF. inversion F as [|sc f0 scs fs (V & NS & BB) F' E1 E2]; subst.
         unfold cur_ns_of. rewrite <- E1. exact NS.
       + split; [cbn; lia|exact D].
     - split; [reflexivity|]. exists [VNil]. split; [reflexivity|]. split; [reflexivity|]. split; [discriminate|nil_case]. }
@@ -432,13 +432,13 @@ Proof. unfold ns_get. rewrite nss_upd_cur. reflexivity. Qed.
 
 (* the loop frame at the start of a round: position 0, the new behaviour, the new variables *)
 Definition round_frame (f:frame) (b':behavior) (vars:list (string*value)) : frame :=
-  set_vars (set_pos (set_exit f (Some b')) 0) vars.
+  set_vars (set_scope (set_pos (set_exit f (Some b')) 0) "") vars.      (* a new scope: no name *)
 
 (* what the frame's behaviour does when the body has run out and another round follows: it asks for a restart, and after
    frame::next has reset the position the context is the one at the start of the next round *)
 Definition goes_round (r:rt) (c:context) (f:frame) (rest0:list frame) (b b':behavior) (vars:list (string*value)) (below:list value) : Prop :=
   exists c2, enact b r (set_frames c (set_pos f (S (f_pos f)) :: rest0)) = Ok (BrSeekStart, b', r, c2) /\
-    clear_values (upd_top (upd_top c2 (fun f0 => set_exit f0 (Some b'))) (fun f0 => set_pos f0 0)) =
+    clear_values (upd_top (upd_top c2 (fun f0 => set_exit f0 (Some b'))) (fun f0 => set_scope (set_pos f0 0) "")) =
     set_values (set_frames c (round_frame f b' vars :: rest0)) below.
 
 (* the pass that finds the loop body finished, takes the next element and executes the first instruction of the new round *)
@@ -458,13 +458,13 @@ Proof.
   rewrite A1, A2. cbn [f_exit set_pos f_die]. rewrite EX, ED. cbn [andb negb].
   rewrite HE. cbn [bindr]. rewrite HC.
   assert (TE : top_code_empty (set_values (set_frames c (round_frame f b' vars :: rest0)) below) = false).
-  { unfold top_code_empty. cbn [c_frames set_values set_frames round_frame f_code set_vars set_pos set_exit]. rewrite EC. reflexivity. }
+  { unfold top_code_empty. cbn [c_frames set_values set_frames round_frame f_code set_vars set_scope set_pos set_exit]. rewrite EC. reflexivity. }
   rewrite TE. cbn [c_frames set_values set_frames].
   assert (B1 : at_end (round_frame f b' vars) = false) by (unfold at_end; reflexivity).
   assert (B2 : at_end (set_pos (round_frame f b' vars) (S (f_pos (round_frame f b' vars)))) = false).
-  { unfold at_end. cbn [f_pos f_code round_frame set_vars set_pos set_exit]. rewrite EC. reflexivity. }
-  rewrite B1, B2. cbn [f_exit set_pos round_frame set_vars set_exit andb]. cbn [bindr]. rewrite E.
-  unfold current_instr. cbn [c_frames set_frames set_values f_code f_pos set_pos set_vars set_exit round_frame Nat.sub].
+  { unfold at_end. cbn [f_pos f_code round_frame set_vars set_pos set_exit set_scope]. rewrite EC. reflexivity. }
+  rewrite B1, B2. cbn [f_exit set_pos round_frame set_vars set_exit andb set_scope]. cbn [bindr]. rewrite E.
+  unfold current_instr. cbn [c_frames set_frames set_values f_code f_pos set_pos set_vars set_exit round_frame Nat.sub set_scope].
   rewrite EC. cbn [nth_error]. rewrite MR. cbn [Z.eqb].
   match goal with |- context [exec_instr i0 r ?x] => replace x with (set_values (set_frames c (set_pos (round_frame f b' vars) 1 :: rest0)) below) by (destruct c; reflexivity) end.
   rewrite EI. cbn [bindr]. rewrite NErr. reflexivity.
@@ -574,11 +574,11 @@ Proof. destruct top as [|y top']; cbn; [intros -> N; contradiction|intros [-> _]
 Lemma restart_context c f rest0 b' vars below vs :
   length below = f_base f ->
   clear_values (upd_top (upd_top (restart_with (set_values (set_frames c (set_pos f (S (f_pos f)) :: rest0)) (vs ++ below)) vars)
-                                 (fun f0 => set_exit f0 (Some b'))) (fun f0 => set_pos f0 0)) =
+                                 (fun f0 => set_exit f0 (Some b'))) (fun f0 => set_scope (set_pos f0 0) "")) =
   set_values (set_frames c (round_frame f b' vars :: rest0)) below.
 Proof.
   intros LB. unfold restart_with, clear_values, upd_top.
-  cbn [c_frames set_frames c_values set_values f_base set_pos set_vars set_exit].
+  cbn [c_frames set_frames c_values set_values f_base set_pos set_vars set_exit set_scope].
   rewrite app_length, <- LB. replace (length vs + length below - length below) with (length vs) by lia.
   rewrite skipn_app, skipn_all, Nat.sub_diag. cbn [skipn app]. rewrite Nat.sub_diag. cbn [skipn].
   unfold round_frame. destruct f; destruct c; reflexivity.
@@ -746,12 +746,16 @@ Proof. reflexivity. Qed.
 
 (* ---------------------------------------------------------------- loops that exchange the frame's instructions (while) *)
 (* the loop frame after its behaviour has put other instructions in: position 0, the new behaviour, no variables *)
+(* when the condition comes back for the next round the frame is a new scope: its name goes (frame_next) *)
+Definition xscope (b':behavior) (f:frame) : frame := match b' with BWhile _ WCond _ _ => set_scope f "" | _ => f end.
+Lemma xscope_exit b' f : f_exit (xscope b' f) = f_exit f.
+Proof. destruct b' as [|? [|] ? ?| | | | | | | |]; reflexivity. Qed.
 Definition xframe (f:frame) (b':behavior) (code':list instr) : frame :=
-  set_vars (set_pos (set_code (set_exit f (Some b')) code') 0) [].
+  set_vars (set_pos (set_code (xscope b' (set_exit f (Some b'))) code') 0) [].
 
 Definition exchanges (r:rt) (c:context) (f:frame) (rest0:list frame) (b b':behavior) (code':list instr) (below:list value) : Prop :=
   exists c2, enact b r (set_frames c (set_pos f (S (f_pos f)) :: rest0)) = Ok (BrExchange code', b', r, c2) /\
-    upd_top (upd_top c2 (fun f0 => set_exit f0 (Some b'))) (fun f0 => set_pos (set_code f0 code') 0) =
+    upd_top (upd_top c2 (fun f0 => set_exit f0 (Some b'))) (fun f0 => set_pos (set_code (xscope b' f0) code') 0) =
     set_values (set_frames c (xframe f b' code' :: rest0)) below.
 
 Lemma xloop_step_real r c f rest0 b b' i0 code' below r3 c5 :
@@ -768,11 +772,11 @@ Proof.
   assert (A1 : at_end f = false) by (unfold at_end; apply Nat.eqb_neq; lia).
   assert (A2 : at_end (set_pos f (S (f_pos f))) = true) by (unfold at_end; cbn; apply Nat.eqb_eq; lia).
   rewrite A1, A2. cbn [f_exit set_pos f_die]. rewrite EX, ED. cbn [andb negb].
-  rewrite HE. cbn [bindr]. rewrite HC.
+  rewrite HE. cbn [bindr]. unfold xscope in HC. rewrite HC.
   cbn [c_frames set_values set_frames].
   assert (B1 : at_end (xframe f b' (i0 :: code')) = false) by (unfold at_end; reflexivity).
   assert (B2 : at_end (set_pos (xframe f b' (i0 :: code')) (S (f_pos (xframe f b' (i0 :: code'))))) = false) by (unfold at_end; reflexivity).
-  rewrite B1, B2. cbn [f_exit set_pos xframe set_vars set_exit set_code andb]. cbn [bindr]. rewrite E.
+  rewrite B1, B2. cbn [f_exit set_pos xframe set_vars set_exit set_code andb]. rewrite xscope_exit. cbn [f_exit set_exit bindr]. rewrite E.
   unfold current_instr. cbn [c_frames set_frames set_values f_code f_pos set_pos set_vars set_exit set_code xframe Nat.sub].
   cbn [nth_error]. rewrite MR. cbn [Z.eqb].
   match goal with |- context [exec_instr i0 r ?x] => replace x with (set_values (set_frames c (set_pos (xframe f b' (i0 :: code')) 1 :: rest0)) below) by (destruct c; reflexivity) end.
@@ -989,7 +993,7 @@ Proof.
   { split.
     - split; [exact G|]. split; [cbn; rewrite EF; reflexivity|]. split.
       + destruct M as [F N]. split; [|exact N]. cbn. constructor; [|exact F].
-        split; [apply vars_match_mvars|split; reflexivity].
+        split; [apply vars_match_mvars|split; [reflexivity|split; reflexivity]].
       + split; [cbn; lia|exact D].
     - split; [reflexivity|]. exists [VNil]. split; [reflexivity|]. split; [reflexivity|]. split; [discriminate|nil_case]. }
   exact (SE r1 c1 nf fc rest (c_values c0) [] A (fresh_one c1 (c_values c0) eq_refl) eq_refl eq_refl eq_refl B).
@@ -1068,7 +1072,7 @@ Proof.
   intros newf c1 G D EF M. split.
   - split; [exact G|]. split; [cbn; rewrite EF; reflexivity|]. split.
     + destruct M as [F N]. split; [|exact N]. cbn. constructor; [|exact F].
-      split; [apply vars_match_mvars|split; [|reflexivity]]. cbn. unfold cur_ns. rewrite EF. inversion F as [|sc f0 scs fs (V & NS & BB) F' E1 E2]; subst.
+      split; [apply vars_match_mvars|split; [|split; reflexivity]]. cbn. unfold cur_ns. rewrite EF. inversion F as [|sc f0 scs fs (V & NS & BB) F' E1 E2]; subst.
       unfold cur_ns_of. rewrite <- E1. exact NS.
     + split; [cbn; lia|exact D].
   - split; [reflexivity|]. exists [VNil]. split; [reflexivity|]. split; [reflexivity|]. split; [discriminate|nil_case].
@@ -1422,7 +1426,7 @@ Proof.
       - split; [exact G3|]. split; [reflexivity|]. split.
         + apply match_upd. destruct MM2 as [F N]. split; [|exact N]. cbn. inversion F as [|sc f0 scs fs FM F' E1 E2]; subst.
           constructor; [|constructor; [exact FM|exact F']].
-          split; [apply kvars0_match|split; [|reflexivity]].
+          split; [apply kvars0_match|split; [|split; reflexivity]].
           cbn. destruct FM as (_ & NS & _). unfold cur_ns_of. rewrite <- E1. exact NS.
         + split; [cbn; lia|rewrite quirks_upd_cur; exact D2].
       - split; [reflexivity|]. exists [VNil]. split; [reflexivity|]. split; [reflexivity|]. split; [discriminate|nil_case]. }
@@ -1457,7 +1461,7 @@ Proof.
       - split; [exact G3|]. split; [reflexivity|]. split.
         + apply match_upd. destruct MM2 as [F N]. split; [|exact N]. cbn. inversion F as [|sc f0 scs fs FM F' E1 E2]; subst.
           constructor; [|constructor; [exact FM|exact F']].
-          split; [apply kvars0_match|split; [|reflexivity]].
+          split; [apply kvars0_match|split; [|split; reflexivity]].
           cbn. destruct FM as (_ & NS & _). unfold cur_ns_of. rewrite <- E1. exact NS.
         + split; [cbn; lia|rewrite quirks_upd_cur; exact D2].
       - split; [reflexivity|]. exists [VNil]. split; [reflexivity|]. split; [reflexivity|]. split; [discriminate|nil_case]. }
@@ -1578,7 +1582,7 @@ Proof.
       - split; [exact G3|]. split; [reflexivity|]. split.
         + apply match_upd. destruct MM2 as [F N]. split; [|exact N]. cbn. inversion F as [|sc f0 scs fs FM F' E1 E2]; subst.
           constructor; [|constructor; [exact FM|exact F']].
-          split; [apply (vars_match_mvars [(lower var, RNum fr)])|split; [|reflexivity]].
+          split; [apply (vars_match_mvars [(lower var, RNum fr)])|split; [|split; reflexivity]].
           cbn. destruct FM as (_ & NS & _). unfold cur_ns_of. rewrite <- E1. exact NS.
         + split; [cbn; lia|rewrite quirks_upd_cur; exact D2].
       - split; [reflexivity|]. exists [VNil]. split; [reflexivity|]. split; [reflexivity|]. split; [discriminate|nil_case]. }
@@ -1625,7 +1629,7 @@ Proof.
       - split; [exact G3|]. split; [reflexivity|]. split.
         + apply match_upd. destruct MM2 as [F N]. split; [|exact N]. cbn. inversion F as [|sc f0 scs fs FM F' E1 E2]; subst.
           constructor; [|constructor; [exact FM|exact F']].
-          split; [intros k; reflexivity|split; [|reflexivity]].
+          split; [intros k; reflexivity|split; [|split; reflexivity]].
           cbn. destruct FM as (_ & NS & _). unfold cur_ns_of. rewrite <- E1. exact NS.
         + split; [cbn; lia|rewrite quirks_upd_cur; exact D2].
       - split; [reflexivity|]. exists [VNil]. split; [reflexivity|]. split; [reflexivity|]. split; [discriminate|nil_case]. }
@@ -1916,7 +1920,7 @@ Proof.
       - split; [exact G3|]. split; [reflexivity|]. split.
         + apply match_upd. destruct MM2 as [F N]. split; [|exact N]. cbn. inversion F as [|sc f0 scs fs FM F' E1 E2]; subst.
           constructor; [|constructor; [exact FM|exact F']].
-          split; [intros k; reflexivity|split; [|reflexivity]]. cbn. destruct FM as (_ & NS & _). unfold cur_ns_of. rewrite <- E1. exact NS.
+          split; [intros k; reflexivity|split; [|split; reflexivity]]. cbn. destruct FM as (_ & NS & _). unfold cur_ns_of. rewrite <- E1. exact NS.
         + split; [cbn; lia|rewrite quirks_upd_cur; exact D2].
       - split; [reflexivity|]. exists [VNil]. split; [reflexivity|]. split; [reflexivity|]. split; [discriminate|nil_case]. }
     destruct (scope_ends_of_body _ _ _ _ _ IHb _ _ nf fdie (fc2 :: rest2') (c_values c) [] A3 (fresh_one (push_value cX VNil) (c_values c) eq_refl) eq_refl eq_refl eq_refl) as (r4 & c4 & fd4 & rest4 & S4 & M4 & EV4 & K4 & KR4).
@@ -1974,7 +1978,7 @@ Proof.
       { split.
         - split; [apply (good_upd r1 c1 cV G1); destruct G1 as (_ & _ & _ & _ & _ & _ & SU); exact SU|]. split; [reflexivity|]. split.
           + apply match_upd. split; [|exact N1]. cbn. rewrite <- E1. cbn. constructor; [|exact F1'].
-            split; [|split; [|cbn; exact (proj2 (proj2 FM1))]].
+            split; [|split; [|cbn; split; [exact (proj1 (proj2 (proj2 FM1)))|reflexivity]]].
             * cbn. apply vars_match_mvars.
             * cbn. rewrite (moved_ns _ _ MV1), ENS, <- (kept_ns _ _ Ka).
               inversion F1' as [|sc2 f00 scs2 fs2 FM2 F1'' E3 E4]. destruct FM2 as (_ & NS2 & _).
@@ -2045,7 +2049,7 @@ Proof.
     { split.
       - split; [apply (good_upd r1 c1 cV G1); destruct G1 as (_ & _ & _ & _ & _ & _ & SU); exact SU|]. split; [reflexivity|]. split.
         + apply match_upd. split; [|exact N1]. cbn. rewrite <- E1. cbn. constructor; [|exact F1'].
-          split; [|split; [|cbn; exact (proj2 (proj2 FM1))]].
+          split; [|split; [|cbn; split; [exact (proj1 (proj2 (proj2 FM1)))|reflexivity]]].
           * cbn. apply (vars_match_mvars [(lower var, RNum (y + st)%Z)]).
           * cbn. rewrite (moved_ns _ _ MV1), ENS, <- (kept_ns _ _ Ka).
             inversion F1' as [|sc2 f00 scs2 fs2 FM2 F1'' E3 E4]. destruct FM2 as (_ & NS2 & _).
@@ -2162,7 +2166,7 @@ Proof.
     { split.
       - split; [apply (good_upd r2 c2 cC G2); destruct G2 as (_ & _ & _ & _ & _ & _ & SU); exact SU|]. split; [reflexivity|]. split.
         + apply match_upd. split; [|exact N2]. cbn. rewrite <- E3. cbn. constructor; [|exact F2'].
-          split; [intros k; reflexivity|split; [|cbn; exact (proj2 (proj2 FM2))]].
+          split; [intros k; reflexivity|split; [|cbn; split; [exact (proj1 (proj2 (proj2 FM2)))|reflexivity]]].
           cbn. rewrite (moved_ns _ _ MV2). cbn. rewrite (moved_ns _ _ MV1), ENS, <- (kept_ns _ _ Ka), <- (kept_ns _ _ Kc).
           inversion F2' as [|sc3 f000 scs3 fs3 FM3 F2'' E5 E6]. destruct FM3 as (_ & NS3 & _).
           unfold cur_ns_of, pop_scope. cbn. rewrite <- E3. cbn. rewrite <- E5. exact NS3.
